@@ -50,7 +50,7 @@ var properties = map[string]Property{
 	},
 	"C07": {
 		Level:       "other",
-		Rules:       []string{"O-MAPRANGE", "O-KEYSOURCE", "O-POOL", "O-LIFO", "O-SEQ", "R-EVAL-WRITE", "G-IMPORTS"},
+		Rules:       []string{"O-MAPRANGE", "O-KEYSOURCE", "O-POOL", "O-LIFO", "O-SEQ", "R-EVAL-WRITE", "R-ITER-STABLE", "G-IMPORTS"},
 		Explanation: "Decided (nearly the whole property, because order is structural in this code): every map range reachable during evaluation only stores the keys at consecutive indices of a slice resliced to len(map), and every path from the end of that loop to the function's return applies an ascending byte-wise string sort to that slice or passes the false edge of len(map) > 1; callers of the key accessor only read the slice, index the same map with its elements and release it after the loop (no use after release); every loop in the evaluation steps is a complete ascending loop (or the worklist's complete descending push loop) whose only exit is the loop condition; recursive descent takes W[len-1], shrinks W[:len-1], pushes children from len-1 down to 0 and never applies the next step after pushing. reflect.MapKeys/MapRange are outside the modelled reflect subset (G-IMPORTS). Not decided: nothing of substance; assumes sort.StringSlice.Sort sorts byte-wise.",
 	},
 	"C02": {
@@ -61,33 +61,33 @@ var properties = map[string]Property{
 	},
 	"C16": {
 		Level:       "other",
-		Rules:       []string{"N-KEYFLOW", "TV-IDENT", "U-BYTES", "R-GLOBALS", "G-IMPORTS"},
+		Rules:       []string{"N-KEYFLOW", "TV-IDENT", "U-BYTES", "R-GLOBALS", "U-DECODE", "G-IMPORTS"},
 		Explanation: "Decided (structural part): the key of every member lookup during evaluation is the stored member name of a single-name step or a key of the object itself (no conversion, concatenation, slicing or call result on the way), and the constructor stores the name it is given verbatim; the identifier rules the running parser implements (character classes, escape alternatives) are those of the published grammar; the hand-written text transducers do not mix byte and character units (no byte-wise copy driven by a rune-wise range); the unescape routines consult no mutable package-level state. Not decided: that the three unescape routines invert JSON-style escaping for every string (a string-transducer equivalence).",
 	},
 	"C17": {
 		Level:       "translation_validation",
-		Rules:       []string{"TV-RULES", "TV-ACTIONS", "TV-WF", "TV-CATCHALL", "TV-ENGINE", "P-RESTRICT", "P-ERRCHECK", "P-PANICTYPE", "U-INDEX", "U-RUNELEN", "G-IMPORTS"},
+		Rules:       []string{"TV-RULES", "TV-ACTIONS", "TV-WF", "TV-CATCHALL", "TV-ENGINE", "P-RESTRICT", "P-ERRCHECK", "P-PANICTYPE", "U-INDEX", "U-RUNELEN", "N-GETSET", "G-IMPORTS"},
 		Explanation: "Translation validation of the generated packrat parser against the published grammar: each of the grammar's rules is decompiled from the goto-template code of its rule function or inlined copies and shown equivalent after normalisation (literals to rune sequences, classes to interval sets, e+ to e e*, `-switch` choices under FIRST-set side conditions); every action body in Execute equals the grammar's action as Go syntax; the grammar-independent engine is the generator's boilerplate; the start rule is total and its catch-all captures the rest after the longest path prefix. Plus: every documented semantic restriction is enforced where the construct is built; the reported position is a character index taken from the token tree and is never used to slice a byte string. Not decided: that strconv / regexp accept what the prose calls 'valid for Go' (they are the definition).",
 	},
 	"C18": {
 		Level:       "other",
-		Rules:       []string{"W-SPACE", "W-CAPTURE", "N-NUMCONV", "ST-FRAMES", "ST-BALANCE", "ST-TYPES", "R-GLOBALS", "G-IMPORTS"},
+		Rules:       []string{"W-SPACE", "W-CAPTURE", "N-NUMCONV", "ST-FRAMES", "ST-BALANCE", "ST-TYPES", "R-GLOBALS", "U-DECODE", "G-IMPORTS"},
 		Explanation: "Decided (structural part): on the grammar the generated parser actually runs (reconstructed by the decompiler), optional blanks are accepted on the stated side(s) of every occurrence of `[`, `]`, `,`, `:`, the seven comparison tokens, `||`, `&&`, `!`, `?(`, `(`, `)` and around a whole path; no capture whose text becomes a number, name, function name or regular expression can contain optional blanks; integers and numbers are converted in base 10 / as 64-bit floats from the unmodified text (so `+` and leading zeros are harmless); the text conversions consult no mutable package-level state; every spelling the grammar derives — in particular a path starting with a bracket instead of `$` — leaves the action value stack well-typed and balanced, so no spelling fails with an internal error. Not decided: quote-style equivalence and `.x` vs `['x']` beyond 'same constructor', `$`-omission behaviour.",
 	},
 	"C03": {
 		Level:       "other",
-		Rules:       []string{"P-POST-NONEMPTY", "P-RTERR", "P-PANICTYPE", "P-ASSERT", "P-NILGUARD", "P-IFACE-EQ", "V-VALIDATED", "V-ACCEPT", "V-TWO-CURRENT", "V-BOOL", "P-SCT", "O-SEQ", "I-OVERFLOW", "I-RANGE", "I-BUF", "I-PROGRESS", "G-IMPORTS"},
+		Rules:       []string{"P-POST-NONEMPTY", "P-RTERR", "P-PANICTYPE", "P-ASSERT", "P-NILGUARD", "P-IFACE-EQ", "V-VALIDATED", "V-ACCEPT", "V-TWO-CURRENT", "V-BOOL", "P-SCT", "O-SEQ", "I-OVERFLOW", "I-RANGE", "I-BUF", "I-PROGRESS", "R-ITER-STABLE", "G-IMPORTS"},
 		Explanation: "Decided (structural part): (i) every return of a retrieve-family function is a fresh error value, the result of a step on the same sink, a variable proven non-nil, or nil on a path where the sink is known non-empty (must-analysis over appends and len(result)>0 edges), so success is never empty and every result[0] read follows a successful step; (ii) only the three documented runtime error types are converted to the runtime-error interface, each implements error, and ErrorFunctionFailed is built only under a non-nil error of a user-function call; (iii) no explicit panic in evaluation code, reflect.TypeOf(x) dereferenced only under x != nil, every unchecked assertion is a pool element, a runtime error asserted to error, or a validated comparator operand, and every interface comparison has a nil / comparable-concrete operand or validated operands; (iv) recursion cycles descend on the tree and loops are counted/range/worklist loops. Not decided: index expressions of the filter list protocol (valueList[0], left[index] in AND/OR, rightValues[0]) whose safety needs a relational length invariant (assumed); time bounds beyond termination. Also decided (v): subscript arithmetic cannot overflow, produced indices lie in [0, length-1], buffer writes are in range and subscript loops terminate (zone abstract interpretation, see C11).",
 		Assumptions: []string{"assumed obligations: the list-length protocol of filter evaluation (every computed list has length 1 or the member count)"},
 	},
 	"C08": {
 		Level:       "other",
-		Rules:       []string{"N-FORWARD", "N-DEEPEST", "O-SEQ", "B-CHAIN", "N-PRESENCE", "N-WALK", "G-IMPORTS"},
+		Rules:       []string{"N-FORWARD", "N-DEEPEST", "O-SEQ", "B-CHAIN", "N-PRESENCE", "N-WALK", "R-ITER-STABLE", "N-GETSET", "G-IMPORTS"},
 		Explanation: "Decided (structural part): every call of a step (retrieve on the next node, or one of the retrieve-family helpers) passes the caller's own root and the caller's own sink (or a private pooled sink), the emitters hand the next step exactly the value they would emit themselves (container[key] of their parameters); fan-out loops are complete and leave only through their loop condition, branch errors are only accumulated through the deepest-error helper; the chain builder re-assigns its link target from the current step on every iteration. Not decided (the behavioural statement itself): that the builder links `next` to Q on every branch (the live `$..['a','b'].c` defect is there) and the relational equality of the three retrievals.",
 	},
 	"C09": {
 		Level:       "other",
-		Rules:       []string{"V-OPS", "V-WIRE", "V-PREC", "V-SINGLE-RIGHT", "V-VALIDATED", "V-INPUT-PURE", "V-BOOL", "V-TWO-CURRENT", "G-IMPORTS"},
+		Rules:       []string{"V-OPS", "V-WIRE", "V-PREC", "V-SINGLE-RIGHT", "V-VALIDATED", "V-INPUT-PURE", "V-BOOL", "V-TWO-CURRENT", "N-GETSET", "G-IMPORTS"},
 		Explanation: "Decided (structural part): each ordering builder realises one operator on every path — straight operands with its own comparator, exchanged operands with the mirror comparator — and the four operators are each realised by exactly one builder; every comparator's loop keeps exactly the elements for which `element OP right` holds and blanks the others; `!=` is NOT(==) over the same operands in order; no comparison is built with a per-member operand on the right of a member-independent one (evaluation reads only right[0]). Not decided: the Boolean-algebra clause (index-wise merge of per-member lists in AND/OR/NOT, the length-1 whole-match convention) . Also decided: each comparison / logical token of the grammar the generated parser runs runs the builder of its own operator with (left, right) in source order, and `||` binds looser than `&&`, looser than comparison / parentheses / `!`.",
 	},
 	"C10": {
@@ -97,13 +97,13 @@ var properties = map[string]Property{
 	},
 	"C11": {
 		Level:       "other",
-		Rules:       []string{"I-OVERFLOW", "I-RANGE", "I-BUF", "I-PROGRESS", "O-SEQ", "G-IMPORTS"},
+		Rules:       []string{"I-OVERFLOW", "I-RANGE", "I-BUF", "I-PROGRESS", "O-SEQ", "R-ITER-STABLE", "G-IMPORTS"},
 		Explanation: "Decided (totality half, for every start/end/step/length): zone (difference-bound matrix) abstract interpretation with trace partitioning of every subscript implementation, helpers inlined, with subscript numbers ranging over the whole machine integer range and 0 <= length <= maxInt/16: no addition, subtraction, negation or multiplication on subscript values can leave the machine integer range (exact big-integer interval per operation); every integer stored into a produced index list lies in [0, length-1]; every write into and reslice of the pre-sized buffer is in range (for both loops, using the iteration-count lemma: a counter incremented once per iteration of a loop whose variable moves by at least one towards a fixed bound is bounded by the distance between start and bound); make() lengths are non-negative; every loop variable moves towards its bound by a provably non-zero amount (termination). The consuming loops visit the produced indices completely and in order (O-SEQ). Not decided: exactness w.r.t. Python slicing (which elements are selected) — a numerical property.",
 		Assumptions: []string{"a []interface{} cannot have more than maxInt/16 elements (element size 16 bytes)", "the iteration-count lemma (proved in DESIGN.md §3.G) is part of the trusted base"},
 	},
 	"C12": {
 		Level:       "other",
-		Rules:       []string{"N-ACCESS", "N-ACCFLAG", "N-PRESENCE", "N-WALK", "N-CTOR", "G-IMPORTS"},
+		Rules:       []string{"N-ACCESS", "N-ACCFLAG", "N-PRESENCE", "N-WALK", "N-CTOR", "N-GETSET", "G-IMPORTS"},
 		Explanation: "Decided (structural part): each of the three emission sites has one plain and one accessor branch selected by the node's own flag, and the accessor's Get re-reads exactly the location (or value) the plain branch emits; the flag-clearing pass sets the flag on every node it walks over and covers every retrieve edge that emits into the parent's sink (inner identifiers of a multi-name selector, its union twin); every place that attaches a chain as function argument or filter operand clears the flag on it. Not decided: equality of the two result sequences as such.",
 	},
 	"C13": {
@@ -113,12 +113,12 @@ var properties = map[string]Property{
 	},
 	"C14": {
 		Level:       "other",
-		Rules:       []string{"N-FUNCALL", "N-FORWARD", "P-RTERR", "O-POOL", "B-CHAIN", "P-RESTRICT", "N-WALK", "G-IMPORTS"},
+		Rules:       []string{"N-FUNCALL", "N-FORWARD", "P-RTERR", "O-POOL", "B-CHAIN", "P-RESTRICT", "N-WALK", "N-GETSET", "N-HEAD", "G-IMPORTS"},
 		Explanation: "Decided (structural part): a function node calls its user function at exactly one site, outside loops; the filter function receives the node's current value; the aggregate receives the list of its private pooled sink, or element 0 as an array only under the parameter's value-group test being false and a successful checked assertion; the function's result is what is forwarded; ErrorFunctionFailed is built only when that call returned an error; the chain builder keeps its link target on the step just processed (so a step after an aggregate is linked behind the aggregate). Not decided: that the value-group flag is correct for the chain (the live `$.a.*.f()` defect), . Also decided: function names are looked up in the filter table first, then the aggregate table, else ErrorFunctionNotFound.",
 	},
 	"C15": {
 		Level:       "other",
-		Rules:       []string{"N-KIND", "P-NILGUARD", "P-RTERR", "N-DEEPEST", "N-WALK", "G-IMPORTS"},
+		Rules:       []string{"N-KIND", "P-NILGUARD", "P-RTERR", "N-DEEPEST", "N-WALK", "N-GETSET", "G-IMPORTS"},
 		Explanation: "Decided (structural part): every type-mismatch error is built under failed type tests of the node's current value, its expected-kind text is in one-to-one correspondence with the set of container kinds the node navigates, its found text is a constant for nil and reflect.TypeOf(current).String() of that same value under a nil guard, and it references the raising node's own descriptor; inside fan-out loops the surviving error is chosen only by the deepest-error helper. Not decided: which of several branch errors is reported (depends on text lengths / traversal order).",
 	},
 	"C20": {
